@@ -8,8 +8,37 @@ import (
 	"fmt"
 	"os"
 	"sort"
+	"sync/atomic"
 	"time"
 )
+
+// Tick is called at the start of every execution; the worker's watchdog uses it to recognise an
+// execution that never returns (five orders of magnitude above the cost of a start).
+var lastTick atomic.Int64
+var currentCase atomic.Value // string: JSON of the case being executed
+
+func Tick() { lastTick.Store(time.Now().UnixNano()) }
+
+// SinceTick returns the time since the last execution started.
+func SinceTick() time.Duration {
+	t := lastTick.Load()
+	if t == 0 {
+		return 0
+	}
+	return time.Since(time.Unix(0, t))
+}
+
+func SetCurrentCase(v any) {
+	b, _ := json.Marshal(v)
+	currentCase.Store(string(b))
+}
+
+func CurrentCase() string {
+	if s, ok := currentCase.Load().(string); ok {
+		return s
+	}
+	return ""
+}
 
 // Violation is one property violation with everything needed to replay it.
 type Violation struct {
